@@ -1,5 +1,180 @@
-/- C01 — theorems under construction. -/
-import BEI.Model.App
+/-
+  C01 — Per-frame events are exactly the documented function of the state transition; the polled data equal the
+  payloads; the value has the action's declared output type.
+
+  The transition table and the flag order are the ones the extractor read from `/repo/src` on this run
+  (`BEI/Gen/Tables.lean`), so `eventsOf_eq_doc` is re-checked against the current source.
+-/
+import BEI.Proofs.Basic
 namespace BEI.Props.C01
-theorem placeholder_true : True := trivial
+open BEI
+
+/-- the table as documented (docs of `ActionEvents`, and the statement of C01) -/
+def docEvents : AState → AState → List EvKind
+  | .none, .none => []
+  | .none, .ongoing => [.started, .ongoing]
+  | .none, .fired => [.started, .fired]
+  | .ongoing, .none => [.canceled]
+  | .ongoing, .ongoing => [.ongoing]
+  | .ongoing, .fired => [.fired]
+  | .fired, .none => [.completed]
+  | .fired, .ongoing => [.ongoing]
+  | .fired, .fired => [.fired]
+
+/-- (1) the events the code computes and triggers — extracted table, in `iter_names` order — are exactly the
+    documented ones, with `Started` delivered before its companion -/
+theorem eventsOf_eq_doc (p c : AState) : eventsOf p c = docEvents p c := by
+  cases p <;> cases c <;> decide
+
+theorem started_is_head (p c : AState) (h : EvKind.started ∈ eventsOf p c) :
+    (eventsOf p c).head? = some .started := by
+  cases p <;> cases c <;> revert h <;> decide
+
+/-- the state order extracted from the source is None < Ongoing < Fired -/
+theorem state_order : AState.rank .none < AState.rank .ongoing ∧ AState.rank .ongoing < AState.rank .fired := by decide
+
+/-- every payload field of a delivery equals the corresponding polled field of the action data -/
+theorem mkDelivery_payload (a : Nat) (d : ActionData) (k : EvKind) (e : Nat) :
+    let x := mkDelivery a d k e
+    x.entity = e ∧ x.action = a ∧ x.kind = k ∧ x.state = d.state ∧ x.value = d.value
+      ∧ (∀ q, x.elapsed = some q → q = d.elapsed) ∧ (∀ q, x.fired = some q → q = d.fired) := by
+  cases k <;> simp [mkDelivery]
+
+/-- which durations each event carries (`Started`: none; `Ongoing`/`Canceled`: elapsed; `Fired`/`Completed`: both) -/
+theorem mkDelivery_durations (a : Nat) (d : ActionData) (k : EvKind) (e : Nat) :
+    (mkDelivery a d k e).elapsed = (if k = .started then none else some d.elapsed) ∧
+    (mkDelivery a d k e).fired = (if k = .fired ∨ k = .completed then some d.fired else none) := by
+  cases k <;> simp [mkDelivery]
+
+/-- the deliveries of one `trigger_events` call: for each event of the transition, in table order, one copy per entity -/
+theorem triggerEvents_spec (a : Nat) (d : ActionData) (es : List Nat) :
+    triggerEvents a d es = d.events.flatMap (fun k => es.map (fun e => mkDelivery a d k e)) := rfl
+
+/-- `ActionData::update` stores the table entry for (previous state, new state), the new state and value -/
+theorem update_events (old : ActionData) (t : Tick) (st : AState) (v : Value) :
+    (old.update t st v).events = eventsOf old.state st ∧ (old.update t st v).state = st
+      ∧ (old.update t st v).value = v := by
+  simp [ActionData.update]
+
+/-- (2) For every action configuration (any dimension, any lists of arbitrary condition / modifier machines at both
+    levels), reader, `ActionsData`, tick and entity list: one `ActionBind::update` stores data `d` whose events are the
+    table entry for (state polled before, new state), whose value has the action's dimension, and delivers exactly
+    `d`'s events to every entity — or nothing when an events-only blocker failed (state and value still stored). -/
+theorem actionBind_update_deliveries (ab : ActionBind) (r : Reader) (av : ActionsView) (t : Tick) (es : List Nat)
+    (o : ActionBind.Out) (h : ab.update r av t es = some o) :
+    ∃ old d, av.get? ab.action = some old ∧ o.actions.get? ab.action = some d
+      ∧ d.events = eventsOf old.state d.state
+      ∧ d.value.dim = ab.dim
+      ∧ o.deliveries = (if o.eventsBlocked then [] else triggerEvents ab.action d es) := by
+  unfold ActionBind.update at h
+  simp only at h
+  split at h
+  · cases h
+  · rename_i old hold
+    simp only [Option.some.injEq] at h
+    subst h
+    refine ⟨old, _, hold, ActionsView.get?_set_same _ _ _ _ hold, ?_, ?_, ?_⟩
+    · simp [ActionData.update]
+    · simp [ActionData.update, Props_convert_dim]
+    · simp
+where
+  Props_convert_dim : ∀ (v : Value) (d : Dim), (v.convert d).dim = d := by
+    intro v d; cases d <;> rfl
+
+/-- other actions' data are left untouched by the update of one action -/
+theorem actionBind_update_frame (ab : ActionBind) (r : Reader) (av : ActionsView) (t : Tick) (es : List Nat)
+    (o : ActionBind.Out) (h : ab.update r av t es = some o) (b : Nat) (hb : b ≠ ab.action) :
+    o.actions.get? b = av.get? b := by
+  unfold ActionBind.update at h
+  simp only at h
+  split at h
+  · cases h
+  · simp only [Option.some.injEq] at h
+    subst h
+    exact ActionsView.get?_set_other _ _ _ _ hb
+
+/-- the action id of a binding is not changed by its update -/
+theorem actionBind_update_action (ab : ActionBind) (r : Reader) (av : ActionsView) (t : Tick) (es : List Nat)
+    (o : ActionBind.Out) (h : ab.update r av t es = some o) : o.bind.action = ab.action ∧ o.bind.dim = ab.dim := by
+  unfold ActionBind.update at h
+  simp only at h
+  split at h
+  · cases h
+  · simp only [Option.some.injEq] at h
+    subst h
+    simp
+
+/-- (3) state threading over a whole instance: if the action ids of the bindings are distinct, then after
+    `ContextInstance::update` the data polled for each bound action is `old.update …` of the data polled before the
+    frame — so the table is always fed the state polled after the previous frame, for histories of any length. -/
+theorem loopActions_threads (t : Tick) (es : List Nat) :
+    ∀ (bs : List ActionBind) (r : Reader) (av : ActionsView) bs' r' av' dl lg,
+      (bs.map (·.action)).Nodup →
+      ContextInstance.loopActions r av t es bs = some (bs', r', av', dl, lg) →
+      (∀ ab ∈ bs, ∃ old st v, av.get? ab.action = some old ∧ av'.get? ab.action = some (old.update t st v)
+          ∧ (old.update t st v).value.dim = ab.dim)
+      ∧ (∀ b, b ∉ bs.map (·.action) → av'.get? b = av.get? b) := by
+  intro bs
+  induction bs with
+  | nil =>
+    intro r av bs' r' av' dl lg _ h
+    simp [ContextInstance.loopActions] at h
+    obtain ⟨_, _, rfl, _, _⟩ := h
+    simp
+  | cons ab rest ih =>
+    intro r av bs' r' av' dl lg hnd h
+    simp only [ContextInstance.loopActions] at h
+    split at h
+    · cases h
+    · rename_i o ho
+      split at h
+      · cases h
+      · rename_i rest' r'' av'' dl' lg' hrest
+        simp only [Option.some.injEq, Prod.mk.injEq] at h
+        obtain ⟨_, _, rfl, _, _⟩ := h
+        simp only [List.map_cons, List.nodup_cons] at hnd
+        obtain ⟨hnotin, hnd'⟩ := hnd
+        obtain ⟨ih1, ih2⟩ := ih _ _ _ _ _ _ _ hnd' hrest
+        obtain ⟨old, d, hold, hd, hev, hdim, _⟩ := actionBind_update_deliveries ab r av t es o ho
+        constructor
+        · intro x hx
+          rcases List.mem_cons.mp hx with rfl | hx
+          · -- the head action: later updates do not touch it
+            have := ih2 x.action hnotin
+            refine ⟨old, d.state, d.value, hold, ?_, ?_⟩
+            · rw [this, hd]
+              -- d = old.update t d.state d.value
+              unfold ActionBind.update at ho
+              simp only at ho
+              split at ho
+              · cases ho
+              · rename_i old' hold'
+                simp only [Option.some.injEq] at ho
+                subst ho
+                rw [hold] at hold'
+                cases hold'
+                rw [ActionsView.get?_set_same _ _ _ _ hold] at hd
+                cases hd
+                simp [ActionData.update]
+            · simpa [ActionData.update] using hdim
+          · obtain ⟨old', st, v, h1, h2, h3⟩ := ih1 x hx
+            have hne : x.action ≠ ab.action := by
+              intro heq
+              exact hnotin (heq ▸ List.mem_map_of_mem hx)
+            refine ⟨old', st, v, ?_, h2, h3⟩
+            rw [← actionBind_update_frame ab r av t es o ho _ hne]; exact h1
+        · intro b hb
+          simp only [List.map_cons, List.mem_cons, not_or] at hb
+          rw [ih2 b hb.2, actionBind_update_frame ab r av t es o ho _ hb.1]
+
+/-- non-vacuity: a concrete binding whose update delivers `Started` then `Fired` with the polled payload -/
+example :
+    let ab : ActionBind := { action := 0, dim := .bool, consume := true, accum := .cumulative,
+                             bindings := [{ input := .key 0 {}, ignored := false }] }
+    let r : Reader := { raw := { keys := [0] } }
+    (match ab.update r [(0, ActionData.new .bool)] ⟨1/64, 1⟩ [7] with
+     | some o => o.deliveries.map (fun d => (d.entity, d.kind, d.state, d.value))
+     | none => []) = [(7, .started, .fired, .bool true), (7, .fired, .fired, .bool true)] := by
+  decide
+
 end BEI.Props.C01
